@@ -512,6 +512,9 @@ def lenient_responder(ck, i):
     sim, a, b = S.make_pair(ck.seed * 29 + i, **kw)
     sim.case = {'family': 'lenient-responder', 'entry': kw}
     sim.acquire(a, 0, **({'dport': port} if on_peer_side else {'sport': port}))
+    if not sim.net:
+        ck.violation('acquire-for-a-configured-entry-emitted-0-datagrams', {'entry': kw, 'states': [x.state.name for x in a.ctl.ike_sas]}, sim.case)
+        return
     req = sim.net.pop(0).data
     p = party.RefParty(S.B4, S.A4, rng)
     sim.inject(a, S.B4, S.A4, p.respond_init(req))
